@@ -168,6 +168,56 @@ func newPool(f *flavour, n int, wrapper ...string) (*pool, error) {
 	return pl, nil
 }
 
+// askMany sends several command lines at once and reads as many answer lines (the
+// answers must be short: both pipes are buffered by the kernel only).
+func (pl *pool) askMany(lines []string) []string {
+	p := <-pl.procs
+	out := make([]string, len(lines))
+	p.mu.Lock()
+	type res struct{ err error }
+	ch := make(chan res, 1)
+	go func() {
+		if _, err := io.WriteString(p.in, strings.Join(lines, "\n")+"\n"); err != nil {
+			ch <- res{err}
+			return
+		}
+		for i := range lines {
+			s, err := p.out.ReadString('\n')
+			if err != nil {
+				ch <- res{err}
+				return
+			}
+			out[i] = strings.TrimRight(s, "\n")
+		}
+		ch <- res{nil}
+	}()
+	var err error
+	select {
+	case r := <-ch:
+		err = r.err
+	case <-time.After(600 * time.Second):
+		err = fmt.Errorf("driver timeout")
+	}
+	p.mu.Unlock()
+	if err != nil {
+		p.cmd.Process.Kill()
+		p.cmd.Wait()
+		if np, err2 := startProc(pl.f.bin, pl.wrap...); err2 == nil {
+			pl.procs <- np
+		} else {
+			pl.procs <- p
+		}
+		for i := range out {
+			if out[i] == "" {
+				out[i] = "crash"
+			}
+		}
+		return out
+	}
+	pl.procs <- p
+	return out
+}
+
 // ask runs one command on a free process; a dead process yields "crash" and is replaced.
 func (pl *pool) ask(line string) string {
 	p := <-pl.procs
